@@ -966,6 +966,46 @@ impl StunClient {
     pub fn events(&mut self) -> Vec<StunClientEvent> {
         self.transaction_events.events()
     }
+
+    /// Read-only snapshot of the internal state, for verification harnesses.
+    #[cfg(feature = "verif")]
+    pub fn verif_snapshot(&self) -> crate::verif::VerifSnapshot {
+        let mut outstanding: Vec<(TransactionId, bool)> = self
+            .transactions
+            .iter()
+            .map(|(id, t)| (*id, t.instant.is_some()))
+            .collect();
+        outstanding.sort();
+        let mut timeouts = self.timeouts.verif_entries();
+        timeouts.sort_by_key(|(id, instant, timeout)| (*instant + *timeout, *id));
+        let (rto, srtt, rttvar, last_request) = match &self.rtt {
+            StunRttCalcuator::Reliable(_) => (None, None, None, None),
+            StunRttCalcuator::Unreliable(handler) => {
+                let (srtt, rttvar) = handler.rtt.verif_estimator();
+                (
+                    Some(handler.rtt.rto()),
+                    Some(srtt),
+                    Some(rttvar),
+                    handler.last_request,
+                )
+            }
+        };
+        let (credentials, violated) = match &self.mechanism {
+            None => (String::from("none"), Vec::new()),
+            Some(CredentialMechanismClient::ShortTerm(m)) => m.verif_state(),
+            Some(CredentialMechanismClient::LongTerm(m)) => m.verif_state(),
+        };
+        crate::verif::VerifSnapshot {
+            outstanding,
+            timeouts,
+            rto,
+            srtt,
+            rttvar,
+            last_request,
+            credentials,
+            violated,
+        }
+    }
 }
 
 fn process_integrity_error(
